@@ -36,8 +36,12 @@ NW == 20     \* nomination window
 DD == 300    \* do-not-disrupt duration used by the duration blockers
 CA == 30     \* consolidateAfter of X's pool
 
-VARIABLES m, pre, churn, v, now, phase, cmds
-vars == <<m, pre, churn, v, now, phase, cmds>>
+VARIABLES m, pre, churn, v, now, phase, cmds,
+          wk      \* the weakened rule in force ("" = none); Weak = "*" lets TLC try every weakening in one run
+vars == <<m, pre, churn, v, now, phase, cmds, wk>>
+AllWeak == {"hasNode", "initialized", "notDeleting", "notMarked", "notNominated", "noNodeDnd", "poolKnown", "podDnd", "podPdb",
+            "consolidatable", "poolKind", "consolidateAfterSet", "policy", "noBuffer", "drifted",
+            "waiveWithoutTgp", "waiveGraceful", "nominatedOffByOne", "dndOffByOne", "noRevalidation"}
 
 \* ---------------------------------------------------------------- the base node: X is the method's best candidate
 BasePod == [key |-> "default/px", active |-> TRUE, dndKind |-> "none", dndSec |-> -1, started |-> 100, evictKind |-> TRUE,
@@ -114,42 +118,44 @@ Apply(b, vv, t) ==
 
 \* ---------------------------------------------------------------- the controller's rule (with spec mutations)
 HoldsW(c, mm, vv, t) ==
-    IF c = Weak THEN TRUE
-    ELSE IF c \in {"podDnd", "podPdb"} /\ Weak = "waiveWithoutTgp" THEN Eventual(mm) \/ Holds(c, mm, vv, t)
-    ELSE IF c \in {"podDnd", "podPdb"} /\ Weak = "waiveGraceful" THEN vv.tgp \/ Holds(c, mm, vv, t)
-    ELSE IF c = "notNominated" /\ Weak = "nominatedOffByOne" THEN ~(vv.nominatedUntil > t + 1)
-    ELSE IF c = "podDnd" /\ Weak = "dndOffByOne"
+    IF c = wk THEN TRUE
+    ELSE IF c \in {"podDnd", "podPdb"} /\ wk = "waiveWithoutTgp" THEN Eventual(mm) \/ Holds(c, mm, vv, t)
+    ELSE IF c \in {"podDnd", "podPdb"} /\ wk = "waiveGraceful" THEN vv.tgp \/ Holds(c, mm, vv, t)
+    ELSE IF c = "notNominated" /\ wk = "nominatedOffByOne" THEN ~(vv.nominatedUntil > t + 1)
+    ELSE IF c = "podDnd" /\ wk = "dndOffByOne"
          THEN Waived(mm, vv) \/ \A i \in DOMAIN vv.pods : ~PodDndBlocks(vv.pods[i], t + 1)
     ELSE Holds(c, mm, vv, t)
 EligibleW(mm, vv, t) == \A i \in DOMAIN Conjuncts : Applies(Conjuncts[i], vv) => HoldsW(Conjuncts[i], mm, vv, t)
 
 \* ---------------------------------------------------------------- closed model
-Init == /\ m \in Methods /\ pre = <<>> /\ churn = <<>> /\ v = Base(m) /\ now = T0 /\ phase = "config" /\ cmds = {}
+Init == /\ wk \in (IF Weak = "*" THEN AllWeak ELSE {Weak})
+        /\ m \in Methods /\ pre = <<>> /\ churn = <<>> /\ v = Base(m) /\ now = T0 /\ phase = "config" /\ cmds = {}
 
 LastIdx == IF pre = <<>> THEN 0 ELSE pre[Len(pre)]
 Block(i) == /\ phase = "config" /\ Len(pre) < MaxPre /\ i > LastIdx
             /\ \A j \in DOMAIN pre : Group(pre[j]) # Group(i)
             /\ (Len(pre) >= 1 => (PairMode = "all" \/ Name(i) \in {"tgp", "poolTgp"}))
             /\ pre' = Append(pre, i) /\ v' = Apply(Name(i), v, now)
-            /\ UNCHANGED <<m, churn, now, phase, cmds>>
+            /\ UNCHANGED <<m, churn, now, phase, cmds, wk>>
 
 Issue == cmds' = cmds \cup {[m |-> m, v |-> v, now |-> now]}
 Compute == /\ phase = "config"
            /\ IF ~EligibleW(m, v, now) THEN phase' = "skipped" /\ UNCHANGED cmds
               ELSE IF Eventual(m) THEN phase' = "issued" /\ Issue
               ELSE phase' = "waiting" /\ UNCHANGED cmds
-           /\ UNCHANGED <<m, pre, churn, v, now>>
+           /\ UNCHANGED <<m, pre, churn, v, now, wk>>
 
 Churn(i) == /\ phase = "waiting" /\ Len(churn) < MaxChurn /\ Name(i) \in ChurnNames
+            /\ Len(pre) <= 1     \* table size: churn is combined with at most one earlier blocker
             /\ \A j \in DOMAIN pre : Group(pre[j]) # Group(i)
             /\ churn' = Append(churn, i) /\ v' = Apply(Name(i), v, now + VD)
-            /\ UNCHANGED <<m, pre, now, phase, cmds>>
+            /\ UNCHANGED <<m, pre, now, phase, cmds, wk>>
 
 Validate == /\ phase = "waiting" /\ now' = now + VD
-            /\ IF Weak = "noRevalidation" \/ EligibleW(m, v, now + VD)
+            /\ IF wk = "noRevalidation" \/ EligibleW(m, v, now + VD)
                THEN phase' = "issued" /\ cmds' = cmds \cup {[m |-> m, v |-> v, now |-> now + VD]}
                ELSE phase' = "abandoned" /\ UNCHANGED cmds
-            /\ UNCHANGED <<m, pre, churn, v>>
+            /\ UNCHANGED <<m, pre, churn, v, wk>>
 
 Next == \/ \E i \in DOMAIN Blockers : Block(i) \/ Churn(i)
         \/ Compute \/ Validate
@@ -173,9 +179,11 @@ Protected(mm, vv, t) ==
     \/ (mm = "staticdrift" /\ (~vv.static \/ vv.drifted # "True"))
 
 Inv_C07_NeverProtected == \A c \in cmds : ~Protected(c.m, c.v, c.now)
+\* all spec mutations in one run (Weak = "*"): always true, prints the weakening under which the property breaks
+WeakDetect == Inv_C07_NeverProtected \/ PrintT(<<"REJ", wk>>)
 \* the guard is exactly as strict as the statement (no over-strictness): whenever the node is not protected the
 \* un-weakened guard admits it
-Inv_C07_GuardNotStricter == G_C07_Eligible(m, v, now) \/ Protected(m, v, now)
+Inv_C07_GuardNotStricter == wk # "" \/ G_C07_Eligible(m, v, now) \/ Protected(m, v, now)
 TypeOK == /\ m \in Methods /\ phase \in {"config", "skipped", "waiting", "issued", "abandoned"}
           /\ Len(pre) <= MaxPre /\ Len(churn) <= MaxChurn
 
